@@ -163,7 +163,8 @@ Definition callable_lines (m : mem) (sig : N) (throws_blob is_method : N) (d : n
      ++ kn "null" (getf m sig SignatureBlob__may_return_null) ++ kn "skip" (getf m sig SignatureBlob__skip_return)
      ++ kn "throws" (if (getf m sig SignatureBlob__throws =? 1) || (throws_blob =? 1) then 1 else 0)
      ++ kn "method" is_method ++ kv "type" (ty m (at_ sig SignatureBlob__return_type_at)))
-  :: args_lines (S (N.to_nat n)) m (at_ sig SignatureBlob__arguments_at) n d.
+  :: attrs m sig (S d)       (* attributes of the return value are keyed by the signature blob *)
+  ++ args_lines (S (N.to_nat n)) m (at_ sig SignatureBlob__arguments_at) n d.
 
 Definition head (d : nat) (kind : string) (name : str) (dep : N) : str :=
   spaces d ++ s "E " ++ s kind ++ s " " ++ name ++ kn "dep" dep.
